@@ -169,7 +169,7 @@ class Program:
         return bi.loc(bb)
 
     def short(self, body_id):
-        s = body_id
+        s = re.sub(r"#inl\d+$", "", body_id)
         s = re.sub(r"<crate::[\w:]+::(\w+) as crate::[\w:]+::(\w+)>", r"<\1 as \2>", s)
         s = re.sub(r"crate::(?:\w+::)*(\w+::\w+)", r"\1", s)
         return s
